@@ -41,4 +41,20 @@ theorem C09_kernel_clamp_max (s1 : Torf.Attrs.St) (pl : Nat) (h : s1.pl = some p
   unfold Torf.Attrs.clampMax clampToMax
   simp [h, h0]
 
+/-- the size classes of `calculate_piece_size` (`max_pieces` as a function of the total size) -/
+theorem C09_kernel_max_pieces (size : Nat) : (Torf.Attrs.maxPieces size : Int) = calcMaxPieces size := by
+  unfold Torf.Attrs.maxPieces calcMaxPieces
+  have e30 : ((2 : Int) ^ (30 : Nat)) = 1073741824 := by decide
+  have n30 : (2 : Nat) ^ 30 = 1073741824 := by decide
+  rw [e30, n30]
+  simp only [decide_eq_true_eq]
+  repeat' split
+  all_goals omega
+
+/-- the result of `calculate_piece_size` is the code's `min(max(piece_size, min_size), max_size)` of the raw power of two -/
+theorem C09_kernel_clamp (size pmin pmax : Nat) :
+    (Torf.Attrs.calcPieceSize size pmin pmax : Int) = calcClamp (Torf.Attrs.rawPieceSize size) pmin pmax := by
+  unfold Torf.Attrs.calcPieceSize calcClamp
+  omega
+
 end Torf.C09
